@@ -7,8 +7,10 @@
 EXTENDS Palette, Json
 
 TagTypes == <<"CoseSign", "CoseSign1", "CoseMac", "CoseMac0", "CoseEncrypt", "CoseEncrypt0">>
-TagNums == {<<16>>, <<17>>, <<18>>, <<96>>, <<97>>, <<98>>, <<15>>, <<19>>, <<95>>, <<99>>, <<61>>, <<>>, <<217, 247>>,
-            <<255,255,255,255,255,255,255,255>>}
+RegTags == {<<16>>, <<17>>, <<18>>, <<96>>, <<97>>, <<98>>}
+(* the registered numbers plus 2^8, 2^16, 2^32 and 2^63: what a truncating comparison would confuse with them *)
+Aliases == UNION {{<<1>> \o t, <<1, 0>> \o t, <<1, 0, 0, 0>> \o t, <<128, 0, 0, 0, 0, 0, 0>> \o t} : t \in RegTags}
+TagNums == RegTags \cup {<<15>>, <<19>>, <<95>>, <<99>>, <<61>>, <<>>, <<217, 247>>, <<255,255,255,255,255,255,255,255>>} \cup Aliases
 RecipMin == Arr(<<B0, EmptyMap, Nil>>)
 Bodies == { Arr(<<B0, EmptyMap, Nil, B0>>),                               \* Sign1 / Mac0
             Arr(<<Bs(<<161,1,38>>), Map(<< <<Nat2I(4), B1>> >>), B12, B1>>), \* Sign1 / Mac0 with content
@@ -24,7 +26,7 @@ Init == st = [mode |-> "init"]
 Next == st.mode = "init" /\
   \/ \E b \in Bodies : st' = [mode |-> "t0", body |-> b]
   \/ \E b \in Bodies : \E t \in TagNums : \E w \in WidthsFor(t) : st' = [mode |-> "t1", body |-> b, t1 |-> t, w1 |-> w]
-  \/ \E b \in Bodies : \E t \in {<<16>>, <<17>>, <<18>>, <<96>>, <<97>>, <<98>>} : \E u \in {<<16>>, <<18>>, <<98>>, <<217, 247>>} :
+  \/ \E b \in Bodies : \E t \in RegTags : \E u \in {<<16>>, <<18>>, <<98>>, <<217, 247>>} :
         st' = [mode |-> "t2", body |-> b, t1 |-> t, w1 |-> MinWidth(t), t2 |-> u]
 Spec == Init /\ [][Next]_st
 Go == st.mode # "init"
